@@ -17,3 +17,11 @@ fn despawn_reader_only_while_reacting()
     std::mem::forget(tracker);
     kani::cover!(true, "end of harness reached");
 }
+
+/// introspection of the tracker for harnesses of sibling modules
+pub fn desp_prepared_len(t: &DespawnAccessTracker) -> usize { t.prepared.len() }
+pub fn desp_prepared_at(t: &DespawnAccessTracker, i: usize) -> (SystemCommand, Entity) { (t.prepared[i].0, t.prepared[i].1) }
+pub fn desp_prepared_handle(t: &DespawnAccessTracker, i: usize) -> &ReactorHandle { &t.prepared[i].2 }
+pub fn desp_reacting(t: &DespawnAccessTracker) -> bool { t.currently_reacting }
+pub fn desp_source(t: &DespawnAccessTracker) -> Entity { t.reaction_source }
+pub fn desp_holds_handle(t: &DespawnAccessTracker) -> bool { t.reactor_handle.is_some() }
